@@ -77,6 +77,7 @@ type c03Env struct {
 	engine  storage.Engine
 	db      *gorm.DB
 	client  *Crypto
+	ktypes  map[int]string // key index -> "rsa" / "ed" (ECDSA otherwise)
 	pubs    []string // key registry: PKIX DER (hex) of every public key the store returned, index = K<n>
 	pubKeys []crypto.PublicKey
 	jwks    []c03JWK
@@ -191,7 +192,37 @@ func (e *c03Env) harvestCanaries() {
 				add("pem-line", ln)
 			}
 		}
+		// renderings a formatting slip produces: big.Int %v / %d (decimal), %x, byte slices as "[1 2 3]" (%v) and hex
+		num := func(kind string, n *big.Int) {
+			if n == nil {
+				return
+			}
+			encs(kind, n.Bytes())
+			add(kind+":dec", n.String())
+		}
+		raw := func(kind string, b []byte) {
+			encs(kind, b)
+			var parts []string
+			for _, x := range b {
+				parts = append(parts, strconv.Itoa(int(x)))
+			}
+			add(kind+":slice", strings.Join(parts, " "))
+			add(kind+":commas", strings.Join(parts, ","))
+		}
 		if k, err := x509.ParsePKCS8PrivateKey(blk.Bytes); err == nil {
+			switch pk := k.(type) {
+			case *rsa.PrivateKey:
+				num("rsa-D", pk.D)
+				for i, p := range pk.Primes {
+					num("rsa-prime"+strconv.Itoa(i), p)
+				}
+				num("rsa-Dp", pk.Precomputed.Dp)
+				num("rsa-Dq", pk.Precomputed.Dq)
+				num("rsa-Qinv", pk.Precomputed.Qinv)
+			case ed25519.PrivateKey:
+				raw("ed25519-seed", pk.Seed())
+				raw("ed25519-private", []byte(pk))
+			}
 			if ec, ok := k.(*ecdsa.PrivateKey); ok {
 				encs("scalar", ec.D.Bytes())
 				fixed := make([]byte, (ec.Curve.Params().BitSize+7)/8)
@@ -273,6 +304,10 @@ func c03Err(err error) string {
 		return "err:duplicated-key"
 	case strings.Contains(err.Error(), "c03-naming-error"):
 		return "err:naming-func-error"
+	case strings.Contains(err.Error(), "unsupported decryption key"):
+		return "err:unsupported-key"
+	case strings.Contains(err.Error(), "kid header not found"):
+		return "err:no-kid-header"
 	case strings.Contains(err.Error(), "refusing to sign JWS with private key in JWK header"):
 		return "err:private-jwk-refused"
 	case strings.Contains(err.Error(), "unable to set header"):
@@ -281,6 +316,16 @@ func c03Err(err error) string {
 		return "err:invalid-jwt-headers"
 	}
 	return "err:other:" + regexp.MustCompile(`[^a-zA-Z0-9 :._-]`).ReplaceAllString(err.Error(), "?")
+}
+
+// outcome class + (for the classes whose text the engine words itself) the exact error text, key dir normalised
+func (e *c03Env) errT(err error) string {
+	c := c03Err(err)
+	switch c {
+	case "err:ErrPrivateKeyNotFound", "err:spi.ErrNotFound", "err:invalid-key-id", "err:duplicated-key", "err:unsupported-key", "err:no-kid-header":
+		return c + " err=\"" + strings.ReplaceAll(err.Error(), e.keyDir, "$KEYDIR") + "\""
+	}
+	return c
 }
 
 func (e *c03Env) reset() {
@@ -301,6 +346,7 @@ func (e *c03Env) reset() {
 	}
 	e.client = c
 	e.pubs, e.pubKeys = nil, nil
+	e.ktypes = map[int]string{}
 	// a decoy key file OUTSIDE the key directory (its sibling): the key name "../escape" would address it
 	e.decoy = filepath.Join(filepath.Dir(e.keyDir), "escape_private.pem")
 	if der, err := x509.MarshalPKCS8PrivateKey(e.pkgKey); err == nil {
@@ -405,27 +451,39 @@ func (e *c03Env) exec(op map[string]interface{}) (line string) {
 	case "link":
 		err := e.client.Link(ctx, str("kid"), str("keyName"), str("version"))
 		e.sink("returns", err)
-		return "link " + c03Err(err)
+		return "link " + e.errT(err)
 	case "delete":
 		err := e.client.Delete(ctx, str("kid"))
 		e.sink("returns", err)
-		return "delete " + c03Err(err) + e.decoyFlags()
-	case "plant": // a key that did not come from New: saved through the backend's SPI (legacy key / import)
-		kp, gerr := spi.GenerateKeyPair()
+		return "delete " + e.errT(err) + e.decoyFlags()
+	case "plant": // a key that did not come from New: saved through the backend's SPI (legacy key / import); the stores
+		// hold every type util.PemToPrivateKey knows: ECDSA, RSA, Ed25519
+		var kp crypto.Signer
+		var gerr error
+		switch str("ktype") {
+		case "rsa":
+			kp, gerr = rsa.GenerateKey(crand.Reader, 1024)
+		case "ed":
+			_, kp, gerr = ed25519.GenerateKey(crand.Reader)
+		default:
+			kp, gerr = spi.GenerateKeyPair()
+		}
 		if gerr != nil {
 			return "plant keygen-failed"
 		}
 		err := e.client.backend.SavePrivateKey(ctx, str("keyName"), kp)
 		e.sink("returns", err)
 		if err != nil {
-			c := c03Err(err)
+			c := e.errT(err)
 			if strings.Contains(err.Error(), "file exists") {
 				c = "err:key-exists"
 			}
 			return "plant " + c + e.decoyFlags()
 		}
 		e.harvestCanaries()
-		return fmt.Sprintf("plant ok key=K%d", e.pubIndex(kp.Public()))
+		idx := e.pubIndex(kp.Public())
+		e.ktypes[idx] = str("ktype")
+		return fmt.Sprintf("plant ok key=K%d", idx)
 	case "migrate":
 		err := e.client.Migrate()
 		e.sink("returns", err)
@@ -446,7 +504,7 @@ func (e *c03Env) exec(op map[string]interface{}) (line string) {
 		}
 		e.sink("returns", err)
 		if err != nil {
-			return "sign " + str("how") + " " + c03Err(err)
+			return "sign " + str("how") + " " + e.errT(err)
 		}
 		e.sinkToken(tok)
 		res := "sign " + str("how") + " ok verifies=" + e.verifiers(tok) + c03TokenFlags(tok)
@@ -465,7 +523,7 @@ func (e *c03Env) exec(op map[string]interface{}) (line string) {
 		pk, err := e.client.Resolve(ctx, str("kid"))
 		e.sink("returns", pk, err)
 		if err != nil {
-			return "resolve " + c03Err(err)
+			return "resolve " + e.errT(err)
 		}
 		return fmt.Sprintf("resolve ok key=K%d", e.pubIndex(pk)) + c03PubFlag(pk)
 	case "exists":
@@ -493,20 +551,23 @@ func (e *c03Env) exec(op map[string]interface{}) (line string) {
 		if int(enc) >= len(e.pubKeys) {
 			return str("op") + " skipped"
 		}
-		pk := e.pubKeys[int(enc)].(*ecdsa.PublicKey)
 		plain := []byte("c03 plaintext " + strconv.Itoa(e.seq))
 		var got []byte
 		var err error
 		if str("op") == "decrypt" {
+			pk, isEC := e.pubKeys[int(enc)].(*ecdsa.PublicKey)
+			if !isEC {
+				return "decrypt skipped"
+			}
 			ct, eerr := EciesEncrypt(pk, plain)
 			if eerr != nil {
 				return "decrypt encrypt-failed"
 			}
 			got, err = e.client.Decrypt(ctx, str("kid"), ct)
 		} else {
-			msg, eerr := EncryptJWE(plain, map[string]interface{}{"kid": str("kid")}, pk)
+			msg, eerr := EncryptJWE(plain, map[string]interface{}{"kid": str("kid")}, e.pubKeys[int(enc)])
 			if eerr != nil {
-				return "decryptjwe encrypt-failed:" + eerr.Error()
+				return "decryptjwe skipped"
 			}
 			var hdrs map[string]interface{}
 			got, hdrs, err = e.client.DecryptJWE(ctx, msg)
@@ -514,10 +575,8 @@ func (e *c03Env) exec(op map[string]interface{}) (line string) {
 		}
 		e.sink("returns", got, err)
 		if err != nil {
-			c := c03Err(err)
-			if strings.Contains(err.Error(), "kid header not found") {
-				c = "err:no-kid-header"
-			} else if strings.HasPrefix(c, "err:other:") {
+			c := e.errT(err)
+			if strings.HasPrefix(c, "err:other:") {
 				// wrong key: ECIES "invalid message" / MAC failure, jwe "failed to decrypt"
 				c = "err:wrong-key"
 			}
@@ -964,9 +1023,12 @@ func TestVerifC03(t *testing.T) {
 				if n, _ := op["keyName"].(string); n != "" {
 					names = append(names, n)
 				}
-			case x < 22:
+			case x < 24:
 				n := pick(legacy)
-				if emit(map[string]interface{}{"op": "plant", "keyName": n}) == "plant ok key=K"+strconv.Itoa(len(e.pubKeys)-1) {
+				if r.Intn(2) == 0 {
+					n = "imported-" + strconv.Itoa(r.Intn(4))
+				}
+				if emit(map[string]interface{}{"op": "plant", "keyName": n, "ktype": pick([]string{"ec", "rsa", "ed", "rsa", "ed"})}) == "plant ok key=K"+strconv.Itoa(len(e.pubKeys)-1) {
 					names = append(names, n)
 				}
 			case x < 30:
@@ -988,12 +1050,24 @@ func TestVerifC03(t *testing.T) {
 			case x < 82:
 				emit(map[string]interface{}{"op": "files"})
 			case x < 90:
-				if len(e.pubKeys) > 0 {
-					emit(map[string]interface{}{"op": "decrypt", "kid": pick(append(kids, "alias0", "alias1", "nobody")), "encFor": r.Intn(len(e.pubKeys))})
+				var ecs []int // ECIES encrypts to ECDSA keys only
+				for i, pk := range e.pubKeys {
+					if _, ok := pk.(*ecdsa.PublicKey); ok {
+						ecs = append(ecs, i)
+					}
+				}
+				if len(ecs) > 0 {
+					emit(map[string]interface{}{"op": "decrypt", "kid": anyKid("alias0", "alias1", "nobody"), "encFor": ecs[r.Intn(len(ecs))]})
 				}
 			case x < 96:
-				if len(e.pubKeys) > 0 {
-					emit(map[string]interface{}{"op": "decryptjwe", "kid": pick(append(kids, "alias0", "nobody")), "encFor": r.Intn(len(e.pubKeys))})
+				var encs []int // JWE: ECDSA and RSA recipients
+				for i, pk := range e.pubKeys {
+					if _, ok := pk.(ed25519.PublicKey); !ok {
+						encs = append(encs, i)
+					}
+				}
+				if len(encs) > 0 {
+					emit(map[string]interface{}{"op": "decryptjwe", "kid": anyKid("alias0", "nobody"), "encFor": encs[r.Intn(len(encs))]})
 				}
 			default:
 				emit(map[string]interface{}{"op": "migrate"})
@@ -1005,6 +1079,32 @@ func TestVerifC03(t *testing.T) {
 		for _, k := range append(append([]string{}, kids...), append([]string{"alias0", "alias1", "alias2"}, names...)...) {
 			emit(map[string]interface{}{"op": "sign", "how": "jws", "kid": k})
 			emit(map[string]interface{}{"op": "resolve", "kid": k})
+		}
+		// every planted / drawn key name (Migrate made them kids): all operations incl. Decrypt with keys of every type
+		emit(map[string]interface{}{"op": "migrate"})
+		var ec0 = -1
+		for i, pk := range e.pubKeys {
+			if _, ok := pk.(*ecdsa.PublicKey); ok {
+				ec0 = i
+				break
+			}
+		}
+		for _, k := range names {
+			for _, how := range []string{"jws", "jwt", "dpop"} {
+				emit(map[string]interface{}{"op": "sign", "how": how, "kid": k})
+			}
+			emit(map[string]interface{}{"op": "resolve", "kid": k})
+			emit(map[string]interface{}{"op": "exists", "kid": k})
+			if ec0 >= 0 {
+				emit(map[string]interface{}{"op": "decrypt", "kid": k, "encFor": ec0})
+				emit(map[string]interface{}{"op": "decryptjwe", "kid": k, "encFor": ec0})
+			}
+		}
+		for _, k := range names {
+			if r.Intn(2) == 0 {
+				emit(map[string]interface{}{"op": "delete", "kid": k})
+				emit(map[string]interface{}{"op": "sign", "how": "jws", "kid": k})
+			}
 		}
 	}
 
